@@ -778,6 +778,6 @@ def parseToks (toks : List Tok) : List Decl × Option PErr := declsH (toks.lengt
 
 /-- `TokenParser.parse` up to type resolution -/
 def parseDecls (text : List Char) : List Decl × Option PErr :=
-  parseToks (scan (Parser.stripAux (text.length + 1) text))
+  parseToks (scan (Parser.stripAux (text.length + 1) none text))
 
 end Cstruct.DefParser
